@@ -25,4 +25,20 @@ def intake (cl : List Nat) (things : List Nat) : List Nat × List Nat × List Na
 /-- `_control_cb` with `cmd == 'cancel_tasks'` -/
 def cancelCmd (cl : List Nat) (uids : List Nat) : List Nat := cl ++ uids
 
+/-- the argument of `TaskManager.cancel_tasks` / `Task.cancel` -/
+inductive Arg where
+  | none                      -- `cancel_tasks()`
+  | one (uid : Nat)           -- a single uid (what `Task.cancel` passes)
+  | many (uids : List Nat)    -- a list of uids
+deriving DecidableEq, Repr
+
+/-- `TaskManager.cancel_tasks`: the uids named in the published `cancel_tasks` command;
+    `known` are the tasks of this manager (no argument or an empty list means all of them).
+    The states of the tasks play no role. -/
+def request (known : List Nat) : Arg → List Nat
+  | .none      => known
+  | .one u     => [u]
+  | .many []   => known
+  | .many us   => us
+
 end RPVerif.Cancel
